@@ -156,7 +156,7 @@ pub fn run(ctx: &Ctx) -> Report {
         drop(push);
 
         // (b) every request class x provider outcome: error renderings, intermediate values, log records
-        let provider_kinds: Vec<(&str, ProvSpec)> = vec![
+        let mut provider_kinds: Vec<(&str, ProvSpec)> = vec![
             ("key", ProvSpec::Derive(vec![(e2e::ACCESS_KEY.to_string(), secret.to_string())])),
             ("wrong-key", ProvSpec::Derive(vec![(e2e::ACCESS_KEY.to_string(), format!("{}x", &secret[1..]))])),
             ("expired-token", ProvSpec::Fail(ErrSpec::Sig("ExpiredToken".into(), "token expired".into()))),
@@ -165,6 +165,11 @@ pub fn run(ctx: &Ctx) -> Report {
             // a key store's own error type: its message is harmless, its derived Debug shows the record it held
             ("foreign-with-record", ProvSpec::Fail(ErrSpec::Record(format!("secret_key: {:?}, signing_key_hex: {}", secret, refmodel::hex_lower(&chain.ksigning))))),
         ];
+        // the key answered together with each kind of identity (IAM user, assumed role, federated user, root, service,
+        // canonical user, two identities), by a store that is indexed by the access key alone
+        for (kind, name) in [(1u8, "key+user"), (2, "key+assumed-role"), (3, "key+federated-user"), (4, "key+root"), (5, "key+service"), (6, "key+canonical-user"), (7, "key+user-and-role")] {
+            provider_kinds.push((name, ProvSpec::DeriveWithPrincipal(vec![(e2e::ACCESS_KEY.to_string(), secret.to_string())], kind)));
+        }
         // request classes, plus presented signatures of unusual shape on an otherwise valid request
         let mut cases: Vec<(String, crate::e2e::Case)> = Vec::new();
         for (cname, dims) in &classes {
@@ -412,7 +417,7 @@ pub fn run(ctx: &Ctx) -> Report {
     st.sample(0, 1, || json!({"observables": ["error Display/Debug", "key types Debug/Display", "provider request/response Debug", "CanonicalRequest/AuthParams/SigV4Authenticator Debug", "log records >= debug"], "needles_per_secret": n_needles / 3}));
     Report {
         stats: st,
-        rule: "3 secrets x 47 request classes (one per stage of the documented order on each carrier, valid, wrong signature, and presented signatures of 7 unusual shapes: truncated, empty, extended, doubled, upper-case, non-hex; and wrong signatures with request and server clock on different sides of a day, month, leap-day and year boundary) x 6 provider outcomes (key, wrong key, ExpiredToken, io error, private error type, a private error type whose message is harmless and whose derived Debug shows the key record it was handling); observables: the returned error's Display and Debug, the response Debug, Debug/Display (plain and alternate) of the five key types, GetSigningKeyRequest/Response, SigV4AuthenticatorResponse, CanonicalRequest, AuthParams, SigV4Authenticator, KeyTooLongError from five refused constructions (capacity one short, stray line ending, capacities 0/3/4/36, long input), and every log record at level >= Debug captured by the harness logger during validation and during key construction / refusal / derivation (Trace records counted, not searched); needles: secret, AWS4+secret, kDate, kRegion, kService, kSigning, each raw, hex, HEX, base64, base64url, as a decimal byte list and ascii-escaped, plus the correct signature of each refused request that did not present it (under the true key and under the key the provider handed out), searched in that request's observables and in those of every later validation of the run. states = (class, provider, outcome)".into(),
+        rule: "3 secrets x 47 request classes (one per stage of the documented order on each carrier, valid, wrong signature, and presented signatures of 7 unusual shapes: truncated, empty, extended, doubled, upper-case, non-hex; and wrong signatures with request and server clock on different sides of a day, month, leap-day and year boundary) x 13 provider outcomes (key, wrong key, ExpiredToken, io error, private error type, a private error type whose message is harmless and whose derived Debug shows the key record it was handling; the key together with each of 7 identities — IAM user, assumed role, federated user, root, service, canonical user, user + role — from a store indexed by the access key alone, so also for requests without a session token); observables: the returned error's Display and Debug, the response Debug, Debug/Display (plain and alternate) of the five key types, GetSigningKeyRequest/Response, SigV4AuthenticatorResponse, CanonicalRequest, AuthParams, SigV4Authenticator, KeyTooLongError from five refused constructions (capacity one short, stray line ending, capacities 0/3/4/36, long input), and every log record at level >= Debug captured by the harness logger during validation and during key construction / refusal / derivation (Trace records counted, not searched); needles: secret, AWS4+secret, kDate, kRegion, kService, kSigning, each raw, hex, HEX, base64, base64url, as a decimal byte list and ascii-escaped, plus the correct signature of each refused request that did not present it (under the true key and under the key the provider handed out), searched in that request's observables and in those of every later validation of the run. states = (class, provider, outcome)".into(),
         bounds: json!({"secrets": 3, "classes": classes.len(), "provider_outcomes": 5}),
         exhaustive: true,
         assumptions: vec!["needles shorter than 16 bytes are not searched (accidental matches)".into()],
